@@ -85,7 +85,8 @@ def check_C05(sc, v, tier, seed, replay):
     v.extra["classes_covered"] = len(set((len(e["mnc"]), len(e["supi"]), e["enc"], e["int"], len(e["opc"]) == 0) for e in evs))
     v.rule = ("structural grid MNC length 2|3 x SUPI length 5..15 x ciphering id 0..3 x integrity id 0..3 x {OP only, OPc} (704 classes; "
               "quick: 64 classes covering every value of every factor, thorough: all) with seeded random / all-zero / all-one K, OP, RAND, "
-              "SQN xor AK; distinct = distinct input tuple, all non-trivial")
+              "SQN xor AK; every third subscriber re-authenticates twice on the same UE context with a fresh challenge (the keys of a round must not "
+              "depend on the previous one); subscribers sharing an OP with different K; distinct = distinct input tuple, all non-trivial")
     v.assumptions = ["TLA+ transcriptions of Milenage, HMAC-SHA-256, TS 33.220 KDF (SelfTest: TS 35.207 set 1, FIPS 180 'abc', RFC 4231 #1)",
                      "serving network name as built by the caller (5G:mnc<3 digits>.mcc<mcc>.3gppnetwork.org)"]
 
@@ -436,7 +437,8 @@ def check_C01(sc, v, tier, seed, replay):
         nue = 1 + (i % 3 if tier != "quick" else (1 if i == 2 else 0))
         counts = {"reg": nue, "pdu": 0, "svc": 0, "rel": 0, "dereg": 0}
         opts = {"mnc_len": 2 + i % 2, "use_opc": i % 2 == 0, "gnb_bits": [22, 24, 27, 32, 25, 31][i % 6], "name_len": [7, 1, 150, 2, 75][i % 5],
-                "imsi_len": [15, 14, 13, 15, 12, 11][i % 6]}
+                "imsi_len": [15, 15, 13, 14, 12, 11][i % 6],      # MSIN lengths 10, 9, 8, 8, 7, 5: odd and even digit counts
+                "big_amf_id": i % 3 == 0}                         # an AMF-UE-NGAP-ID that needs five octets
         scn, text = online.make_scenario(rnd, counts, opts=opts)
         jobs.append(("reg%02d" % i, scn, text))
     runs = online.run_many(sc, emu, jobs, parallel=8)
